@@ -19,7 +19,7 @@ MYFILES = ["Model/Cnet.v", "Model/CnetRun.v", "Proofs/CnetFacts.v", "Proofs/Cnet
 HEADER = ["From Coq Require Import List ZArith QArith Qcanon.",
           "From DV Require Import Model.Core Model.Clt Model.QcInst Model.Cnet Model.CnetRun.",
           "Import ListNotations. Open Scope Z_scope."]
-FLAG_NOTE = ("header flags: 64 certificate wf_cnetb fails (scopes / cut variable / column deletion / CLT shape), "
+FLAG_NOTE = ("header flags: 64 certificate wf_cnetb / groot_okb fails (scopes, cut variable, column deletion, CLT shape, CLT root rows), "
              "32 total mass of the model (value of the all-missing row) is not one, 16 model sum over all rows <> "
              "all-missing value, 8 FIFO batch model <> row-wise model, 4 wrong number of outputs; row flags: "
              "1 exp(log_likelihood) differs from the OR-tree semantics, 2 positional evaluation <> semantics, "
@@ -337,6 +337,17 @@ def main(tier, seed, replay=None):
         E = np.where(np.isfinite(LL), np.exp(np.clip(LL, -700, 50)), 0.0)
         st = stats(d)
         orc = direct_oracle(node, scope, R, LL)
+        if orc is None:
+            # the value of a row must not depend on which other rows share its batch (C18_code_batch_rowwise):
+            # single rows (the all-zero and all-one rows first), pairs and a shuffled half
+            idxs = [[0], [len(R) - 1]] + [[int(j)] for j in rs.choice(len(R), size=min(6, len(R)), replace=False)] + \
+                   [[int(a), int(b)] for a, b in rs.randint(0, len(R), size=(4, 2))] + [rs.permutation(len(R))[: max(1, len(R) // 2)].tolist()]
+            for ix in idxs:
+                with np.errstate(all="ignore"):
+                    sub = np.asarray(node.log_likelihood(R[ix]), dtype=np.float64).reshape(-1)
+                if not np.allclose(sub, LL[ix], rtol=1e-5, atol=1e-6, equal_nan=True):
+                    orc = dict(what="log_likelihood of a row depends on the other rows of the batch", batch=R[ix].astype(int).tolist(),
+                               in_this_batch=sub.tolist(), in_the_full_batch=LL[ix].tolist()); break
         if orc is not None:
             noracle += 1
             if noracle <= 3:
